@@ -2,6 +2,7 @@
 (infer_for_schema: _len.py, _pattern.py, _set.py, _inline.py, match.py, _types.py)."""
 from __future__ import annotations
 
+import copy
 import itertools
 import json
 import operator
@@ -46,7 +47,8 @@ TRUSTED = [
 RULE = ("case = one generated meta-model (<= 6 classes in chains/branches, <= 3 constrained "
         "primitives, length bounds with all six operators, both operand orders, constants "
         "-2..70, guards on the same / another property, pattern calls, constant-set "
-        "membership, unrecognised forms); non-trivial = at least one (class, property) whose "
+        "membership, unrecognised forms; constrained-primitive chains of depth 3..5 declared in "
+        "shuffled, non-topological text order, also after the classes using them); non-trivial = at least one (class, property) whose "
         "expected constraint combines >= 2 recognised invariants or crosses an inheritance "
         "edge, or an expected error; distinct by model text")
 
@@ -384,6 +386,28 @@ def corpus() -> List[dict]:
     out.append(_mm([_cls("C0", [], [["b", STR]], [isin("b", "S0")]),
                     _cls("C1", ["C0"], [], [isin("b", "S1")])],
                    consts=[["S0", "str", ["A", "A"]], ["S1", "str", ["B"]]]))
+    # declaration order of the text differs from the topological order (seeded change
+    # C15-2: the stacking of constrained primitives iterated in declaration order, so that
+    # a descendant declared before its parent lost its grand-ancestor's constraints)
+    def pat_self(f):
+        return {"e": ["call", f, [["name", "self"]]], "tags": [["pat", "self", f, None]]}
+    chain = [{"name": "P0", "base": "str", "parents": [], "invs": [_len("self", "<=", 10)]},
+             {"name": "P1", "base": "str", "parents": ["P0"], "invs": [pat_self("F0")]},
+             {"name": "P2", "base": "str", "parents": ["P1"], "invs": [_len("self", ">=", 2)]}]
+    m = _mm([_cls("C0", [], [["b", ["our", "P2"]]], [])], cprims=copy.deepcopy(chain),
+            patterns=[["F0", "^a+$"]])
+    m["decl_order"] = ["P2", "P1", "P0", "C0"]
+    out.append(m)
+    m = _mm([_cls("C0", [], [["b", ["list", ["our", "P2"]]], ["c", ["opt", ["our", "P1"]]]],
+                  [_len("b", "<", 4)])], cprims=copy.deepcopy(chain), patterns=[["F0", "^a+$"]])
+    m["decl_order"] = ["C0", "P1", "P2", "P0"]
+    out.append(m)
+    # ... and the contradiction with the grand-ancestor must still be reported
+    chain2 = copy.deepcopy(chain)
+    chain2[2]["invs"] = [_len("self", ">", 12, "L")]
+    m = _mm([_cls("C0", [], [["b", ["our", "P2"]]], [])], cprims=chain2, patterns=[["F0", "^a+$"]])
+    m["decl_order"] = ["P2", "P1", "P0", "C0"]
+    out.append(m)
     return out
 
 
